@@ -43,7 +43,7 @@ def floors(tier):
             'leaves_array_valued_expanded': 150, 'leaves_ndarray_backed': 150, 'leaves_non_float64_ndarray': 40,
             'callable_subjects': 200, 'single_callable_form': 20, 'camera_options': 20, 'algebra_traits_checked': 300,
             'drag_histories': 150, 'drag_updates': 400, 'dragged_sparse_points': 200, 'dragged_dense_points': 40,
-            'dependent_callables_reencoded': 100, 'root_callable_drag_histories': 40, 'update_messages': 100, 'scenes_with_a_reused_callable_object': 40}
+            'dependent_callables_reencoded': 100, 'root_callable_drag_histories': 40, 'points_reported_unmoved': 60, 'update_messages': 100, 'scenes_with_a_reused_callable_object': 40}
 
 
 def plan(tier, seed):
@@ -490,10 +490,16 @@ def drag_case(ctx, alg, cfg, name, i):
         before_oth = [snapshot_mv(o) for o in others]
         # what the front end sends: full canonical coefficient list per dragged point; untouched blades keep the decoded value
         news = []
-        for p in points:
+        moved_any = False
+        for pi, p in enumerate(points):
             cur = dict(zip(p.keys(), [float(x) for x in (p.values().tolist() if hasattr(p.values(), 'tolist') else p.values())]))
             full = [cur.get(k, 0.0) for k in canon]
-            for j in rng.sample(range(n), rng.randint(1, min(3, n))):
+            stay = rng.random() < 0.35 and (moved_any or pi < len(points) - 1)      # this point is reported unchanged
+            if stay:
+                ctx.count('points_reported_unmoved')
+            else:
+                moved_any = True
+            for j in ([] if stay else rng.sample(range(n), rng.randint(1, min(3, n)))):
                 if canon[j] in cur:
                     full[j] = rng.randint(-20, 20) / 4.0
             news.append({'mv': full})
